@@ -30,7 +30,7 @@ from pyvc.values import Opaque, to_z3, wrap
 from contracts.common import implies, iff, is_opaque
 from contracts.text_spec import is_split_nl
 from contracts.C14_text_value import (txt_of, implements_i_ssc, DirFileSpaceI, SSC, file_text, file_stored, written, decoded, ctx_lines, _res,
-                                      SPOOLED, spooled_written, spooled_ok, _havoc_spooled)
+                                      SPOOLED, sio_value, spooled_ok, _havoc_spooled)
 from exactly_lib.util.file_utils import spooled_file
 
 from exactly_lib.impls.types.string_source.command_output import exit_ignored, exit_relevant
@@ -229,7 +229,8 @@ def out_written(out):
     """what has been written to an output: a TextIO with a buffer, or a SpooledTextFile (frozen__from_write)"""
     if is_opaque(out):
         return written(out)
-    return spooled_written(out)
+    # (not `spooled_written`: that observation flushes the file object, which is exactly what the writer has to do)
+    return sio_value(out._file) if out._path is None else file_stored(out._path)
 
 
 def _havoc_any_out(interp, out, tag):
@@ -519,3 +520,30 @@ M.contract('exactly_lib.impls.types.string_source.contents.frozen:frozen__from_w
                or not isinstance(result, contents_of_str.ContentsOfStr),
            },
            may_raise=(HardErrorException,), raises_only=(HardErrorException,))
+
+
+# ============================================================================== construction of the transformed source
+
+def _mk_write_of_transformation_writer(interp, name):
+    return TRANSFORMATION_WRITER.make(interp, name + '.tw').write
+
+
+from contracts.C14_text_value import SS          # noqa: E402
+
+M.contract(P_TSSI + ':transformed_string_source_from_writer',
+           params=dict(write=Custom(_mk_write_of_transformation_writer), model=SS, get_transformer_structure=Any_,
+                       mem_buff_size=Int, file_name=Opt(Str)),
+           ensures={
+               'a source that is not frozen, with contents of the class proved above, nothing cached':
+               lambda result: type(result) is cached_frozen.StringSourceWithCachedFrozen and not result._is_frozen
+               and type(result.contents()) is contents_via_write_to.ContentsViaWriteTo
+               and result.contents()._as_file_path is None and prog_cached_path_ok(result.contents()),
+               'the writer is the given one, over the contents of the model': lambda write, model, result:
+               type(result.contents()._writer) is tss_impl._WriterOfTransformed
+               and result.contents()._writer._write_transformed.__self__ is write.__self__
+               and result.contents()._writer._source.txt == model.txt,
+               'the text of the transformed source is what the program writes given the text of the model':
+               lambda write, model, result:
+               prog_txt_of(result.contents()) == decoded(write.__self__.transformer.OUT(model.txt)),
+           },
+           raises_only=())
